@@ -8,9 +8,14 @@ import (
 	"encoding/json"
 	"fmt"
 	"os"
+	"path/filepath"
+	"runtime"
+	"runtime/debug"
 	"sort"
 	"sync"
 	"sync/atomic"
+	"syscall"
+	"time"
 )
 
 // Env is what a case may depend on (besides its index).
@@ -80,17 +85,20 @@ type Ctx struct {
 	Check string
 	Solo  bool // a single case is being run alone (replay / classification)
 
-	mu        sync.Mutex
-	res       Result
-	distinct  map[uint64]struct{}
-	phase     int
-	idx       int
-	curDesc   atomic.Value // string: what library call is in flight
-	ticks     atomic.Int64
-	heapLimit atomic.Int64
-	curFile   *os.File
-	seenSig   map[string]int
-	raceLog   string
+	mu         sync.Mutex
+	res        Result
+	distinct   map[uint64]struct{}
+	phase      int
+	idx        int
+	curDesc    atomic.Value // string: what library call is in flight
+	ticks      atomic.Int64
+	heapLimit  atomic.Int64
+	allowNs    atomic.Int64 // extra CPU allowance of the call in flight
+	concurrent atomic.Bool  // the work is done by goroutines other than the main one
+	mainTid    int
+	curFile    *os.File
+	seenSig    map[string]int
+	raceLog    string
 }
 
 type descFn func() string
@@ -108,14 +116,52 @@ func newCtx(env Env, check string) *Ctx {
 	return c
 }
 
+// Allow grants the call about to be made extra CPU time before the watchdog
+// may call it a hang (for inputs whose legitimate cost is known to be large,
+// e.g. a header declaring hundreds of megabytes). It lasts until the next Tick.
+func (c *Ctx) Allow(extraNs int64) { c.allowNs.Store(extraNs) }
+
+// HugeGate serialises, across all worker processes of this machine, calls
+// whose input declares more than 8 MiB (ReadPacket allocates the declared
+// size): sixteen workers doing that at once thrash memory. It returns the
+// function to call afterwards (collects the buffer, releases the gate).
+func (c *Ctx) HugeGate(declared int64) func() {
+	if declared <= 8<<20 {
+		return func() {}
+	}
+	f, err := os.OpenFile(filepath.Join(Root, "work", "huge.lock"), os.O_CREATE|os.O_RDWR, 0o644)
+	if err != nil {
+		return func() { runtime.GC() }
+	}
+	for syscall.Flock(int(f.Fd()), syscall.LOCK_EX|syscall.LOCK_NB) != nil {
+		time.Sleep(2 * time.Millisecond)
+		c.Tick()
+	}
+	return func() {
+		runtime.GC()
+		debug.FreeOSMemory()
+		syscall.Flock(int(f.Fd()), syscall.LOCK_UN)
+		f.Close()
+	}
+}
+
+// Concurrent tells the watchdog that library calls run in other goroutines
+// than the worker's main one (race workloads), so that process CPU time, not
+// the main thread's, is the evidence to look at.
+func (c *Ctx) Concurrent(on bool) { c.concurrent.Store(on) }
+
 // Tick tells the watchdog that the case is making progress. Call it before
 // every library call (Current does) and every few thousand iterations of
 // enumeration loops.
-func (c *Ctx) Tick() { c.ticks.Add(1) }
+func (c *Ctx) Tick() {
+	c.allowNs.Store(0)
+	c.ticks.Add(1)
+}
 
 // Current records which library call is about to be made, so that a call
 // that never returns, or kills the process, can be named.
 func (c *Ctx) Current(desc func() string) {
+	c.allowNs.Store(0)
 	c.ticks.Add(1)
 	if c.Solo {
 		s := desc()
